@@ -124,6 +124,9 @@ impl PreBoneDeformer {
 
         let mut bones = vec![];
 
+        // A chain of parents visits every link at most once; a longer walk means the links are cyclic.
+        let mut steps = 0;
+
         loop {
             for i in 0..item.deformer.bone_count {
                 bones.push(PreBoneDeformBone {
@@ -134,6 +137,11 @@ impl PreBoneDeformer {
 
             if next.parent_index == -1 {
                 break;
+            }
+
+            steps += 1;
+            if steps >= self.header.links.len() {
+                return None;
             }
 
             next = self.header.links.get(next.parent_index as usize)?;
